@@ -1006,6 +1006,11 @@ bool IGXMLScanner::normalizeAttValue( const   XMLAttDef* const    attDef
             // Do we have an escaped character ?
             case 0xFFFF:
                 nextCh = *srcPtr++;
+                // A dangling escape marker (left behind by an invalid 0xFFFF
+                // character in the value) ends the value; don't step over
+                // the terminator.
+                if (!nextCh)
+                    return retVal;
                 break;
             case 0x09:
             case 0x0A:
@@ -1044,6 +1049,11 @@ bool IGXMLScanner::normalizeAttValue( const   XMLAttDef* const    attDef
             if (nextCh == 0xFFFF)
             {
                 nextCh = *++srcPtr;
+                // A dangling escape marker (left behind by an invalid 0xFFFF
+                // character in the value) ends the value; don't step over
+                // the terminator.
+                if (!nextCh)
+                    return retVal;
             }
             else if (nextCh == chOpenAngle) {
                 //  If its not escaped, then make sure its not a < character, which is
@@ -1124,7 +1134,14 @@ bool IGXMLScanner::normalizeAttRawValue( const   XMLCh* const        attrName
         nextCh = *srcPtr;
         escaped = (nextCh == 0xFFFF);
         if (escaped)
+        {
             nextCh = *++srcPtr;
+            // A dangling escape marker (left behind by an invalid 0xFFFF
+            // character in the value) ends the value; don't step over
+            // the terminator.
+            if (!nextCh)
+                return retVal;
+        }
 
         //  If its not escaped, then make sure its not a < character, which is
         //  not allowed in attribute values.
